@@ -281,6 +281,11 @@ def subflip(tree):
     return [[name, dict(n, f=_flip(n["f"]), t=subflip(n["t"])) if n["k"] == "s" else n] for name, n in tree]
 
 
+def reorder(tree):
+    """same description, members declared in the opposite order at every level"""
+    return [[name, dict(n, t=reorder(n["t"])) if n["k"] == "s" else n] for name, n in reversed(tree)]
+
+
 # ------------------------------------------------------------------------------------------------ JSON schema subset
 class SchemaError(Exception):
     pass
